@@ -8,6 +8,7 @@ import (
 
 	"golang.org/x/tools/go/ssa"
 
+	"dcmcheck/internal/load"
 	"dcmcheck/internal/ranges"
 	"dcmcheck/internal/report"
 )
@@ -28,6 +29,7 @@ import (
 type lenFact struct {
 	min      int64 // proven lower bound on len(s)
 	anyCheck bool  // some dominating condition mentions len(s) (or cap(s))
+	unparsed bool  // ... and at least one of them could not be turned into a bound (relational test)
 }
 
 func isLenOf(v ssa.Value) (ssa.Value, bool) {
@@ -99,7 +101,8 @@ func (c *Ctx) lenFactsAt(eng *ranges.Engine, fn *ssa.Function, s ssa.Value, b *s
 		onTrue := d.Succs[0] == cb
 		op := cond.Op
 		x, y := cond.X, cond.Y
-		if mentionsLen(x, s, 0) || mentionsLen(y, s, 0) {
+		mentions := mentionsLen(x, s, 0) || mentionsLen(y, s, 0)
+		if mentions {
 			f.anyCheck = true
 		}
 		// normalise to len(s) OP k
@@ -119,6 +122,9 @@ func (c *Ctx) lenFactsAt(eng *ranges.Engine, fn *ssa.Function, s ssa.Value, b *s
 				op = token.LEQ
 			}
 		} else {
+			if mentions {
+				f.unparsed = true
+			}
 			continue
 		}
 		if !onTrue {
@@ -139,7 +145,11 @@ func (c *Ctx) lenFactsAt(eng *ranges.Engine, fn *ssa.Function, s ssa.Value, b *s
 		}
 		kv := eng.At(fn, k, d)
 		if kv.IsBottom() {
+			f.unparsed = true
 			continue
+		}
+		if _, isConst := k.(*ssa.Const); !isConst {
+			f.unparsed = true // compared with a variable: the bound below is sound but not all that is known
 		}
 		switch op {
 		case token.GEQ, token.EQL:
@@ -149,6 +159,10 @@ func (c *Ctx) lenFactsAt(eng *ranges.Engine, fn *ssa.Function, s ssa.Value, b *s
 		case token.GTR:
 			if kv.Lo()+1 > f.min && kv.Lo() < posInf {
 				f.min = kv.Lo() + 1
+			}
+		case token.NEQ:
+			if kv.Lo() == 0 && kv.Hi() == 0 && f.min < 1 {
+				f.min = 1 // len(s) != 0
 			}
 		}
 	}
@@ -230,6 +244,14 @@ func (c *Ctx) sliceObligations(eng *ranges.Engine, funcs map[*ssa.Function]bool,
 					}
 					st.sites++
 					k, isConst := x.Index.(*ssa.Const)
+					if need, ok := lenMinusConst(x.Index, x.X); ok && !isConst {
+						// s[len(s)-k]: needs len(s) >= k
+						st.constSites++
+						construct := addrExpr(x.X) + fmt.Sprintf("[len-%d]", need)
+						sts, detail := c.lenAtLeast(eng, funcs, streamSlice, fn, x.X, b, need)
+						add("SLICE-LENREL", fn, construct, sts, ins, detail)
+						continue
+					}
 					if !isConst {
 						if c.Dump == "slicevar" {
 							f := c.lenFactsAt(eng, fn, x.X, b)
@@ -260,6 +282,98 @@ func (c *Ctx) sliceObligations(eng *ranges.Engine, funcs map[*ssa.Function]bool,
 		}
 	}
 	return st
+}
+
+// lenMinusConst: v is len(s) - k for a constant k > 0 (s the indexed slice itself).
+func lenMinusConst(v ssa.Value, s ssa.Value) (int64, bool) {
+	bo, ok := v.(*ssa.BinOp)
+	if !ok || bo.Op != token.SUB {
+		return 0, false
+	}
+	k, ok := bo.Y.(*ssa.Const)
+	if !ok || k.Value == nil || k.Int64() <= 0 {
+		return 0, false
+	}
+	if x, ok := isLenOf(bo.X); ok && sameSlice(x, s) {
+		return k.Int64(), true
+	}
+	return 0, false
+}
+
+// lenAtLeast decides whether len(s) >= need is established at block b of fn: by the dominating
+// tests in fn, or — for a parameter — by the tests in front of every call. It is violated only
+// when everything that is tested about the length is understood and establishes less.
+func (c *Ctx) lenAtLeast(eng *ranges.Engine, funcs map[*ssa.Function]bool, streamSlice func(fn *ssa.Function, v ssa.Value) bool, fn *ssa.Function, s ssa.Value, b *ssa.BasicBlock, need int64) (report.Status, string) {
+	return c.lenAtLeastRec(eng, funcs, streamSlice, fn, s, b, need, 0, 0)
+}
+
+func (c *Ctx) lenAtLeastRec(eng *ranges.Engine, funcs map[*ssa.Function]bool, streamSlice func(fn *ssa.Function, v ssa.Value) bool, fn *ssa.Function, s ssa.Value, b *ssa.BasicBlock, need int64, have int64, depth int) (report.Status, string) {
+	f := c.lenFactsAt(eng, fn, s, b)
+	if have > f.min {
+		f.min = have // established further down the call chain, still true here
+	}
+	if f.min >= need {
+		return report.Discharged, fmt.Sprintf("len >= %d established on a dominating edge in %s", f.min, load.FuncName(fn))
+	}
+	if f.unparsed {
+		return report.OutOfScope, "the length is tested against a variable quantity in " + load.FuncName(fn) + "; bound not established in the domain"
+	}
+	p, isParam := s.(*ssa.Parameter)
+	if !isParam {
+		if streamSlice(fn, s) {
+			return report.Violated, fmt.Sprintf("the index len-%d needs len >= %d, but the only length tests before it (in %s) establish len >= %d: a shorter stream buffer panics with index out of range", need, need, load.FuncName(fn), f.min)
+		}
+		return report.OutOfScope, "buffer is not stream data"
+	}
+	if depth > 3 {
+		return report.OutOfScope, "buffer passed down through more than three levels: not followed"
+	}
+	pi := paramIndex(fn, p)
+	sites := 0
+	var viol, oos string
+	var fns []*ssa.Function
+	for caller := range funcs {
+		fns = append(fns, caller)
+	}
+	sort.Slice(fns, func(i, j int) bool { return fns[i].String() < fns[j].String() })
+	for _, caller := range fns {
+		for _, cb := range caller.Blocks {
+			for _, ins := range cb.Instrs {
+				call, ok := ins.(ssa.CallInstruction)
+				if !ok || call.Common().StaticCallee() != fn || pi >= len(call.Common().Args) {
+					continue
+				}
+				sites++
+				st, d := c.lenAtLeastRec(eng, funcs, streamSlice, caller, call.Common().Args[pi], cb, need, f.min, depth+1)
+				switch st {
+				case report.Violated:
+					if viol == "" {
+						viol = d + " (passed on at " + c.P.Pos(ins.Pos()) + ")"
+					}
+				case report.OutOfScope:
+					if oos == "" {
+						oos = d
+					}
+				}
+			}
+		}
+	}
+	exported := fn.Object() != nil && fn.Object().Exported()
+	if exported && isByteSlice(p.Type()) {
+		// an exported decoding entry point: its caller is the adversary, any length arrives
+		if viol == "" {
+			viol = fmt.Sprintf("the index len-%d needs len >= %d, but %s is an exported entry point and the only length tests between it and the access establish len >= %d: a %d-byte argument panics with index out of range", need, need, load.FuncName(fn), f.min, f.min)
+		}
+	} else if sites == 0 {
+		return report.OutOfScope, "slice is a parameter with no static call site in the analysed code"
+	}
+	switch {
+	case viol != "":
+		return report.Violated, viol
+	case oos != "":
+		return report.OutOfScope, oos
+	}
+	return report.Discharged, fmt.Sprintf("every one of the %d call sites establishes len >= %d", sites, need)
 }
 
 // sameExpr: two SSA values denote the same pure integer expression (go/ssa performs no common
